@@ -758,6 +758,18 @@ class SymTensor:
     def tolist(self):
         return [SymTensor(np.asarray(e, dtype=object).reshape(()), self.isbool) if not isinstance(e, list) else e for e in self.a.tolist()]
 
+    def __int__(self):
+        e = self.a.reshape(-1)[0]
+        if self.isbool:
+            return int(bool(self))
+        s_ = z3.simplify(val(e))
+        if _is_const(s_):
+            return int(_frac(s_))
+        for k in range(0, 65):
+            if _decide(val(e) == k):
+                return k
+        raise TypeError("symbolic integer outside [0,64]")
+
     def __float__(self):
         s = z3.simplify(val(self.a.reshape(-1)[0]))
         if _is_const(s):
@@ -852,8 +864,12 @@ class SymTensor:
 
     def diagonal(self, offset=0, dim1=0, dim2=1):
         d = np.diagonal(self.a, offset, dim1, dim2)
-        # numpy returns a read-only view; torch's is writable.  Copy (no repo code writes through it).
-        return SymTensor(d.copy(), self.isbool)
+        # numpy returns a read-only *view*; torch's view is writable (adaptive_mix writes the mixed diagonal through it)
+        try:
+            d.setflags(write=True)
+        except ValueError:
+            d = d.copy()
+        return SymTensor(d, self.isbool)
 
     def diag(self, diagonal=0):
         if self.a.ndim == 1:
